@@ -53,7 +53,7 @@ func genC15(rt *rapid.T) c15Scn {
 			lim = 30000
 		}
 		size := genSize(rt, "wsize", mp, lim)
-		x.Sc.Acts = append(x.Sc.Acts, vfAct{AtMs: rapid.IntRange(0, 3).Draw(rt, "wat") * rapid.SampledFrom([]int{0, 1, 40, 400}).Draw(rt, "wgap"), Side: st.Side, Kind: "write", SID: st.SID, Size: size, PPI: 53})
+		x.Sc.Acts = append(x.Sc.Acts, vfAct{AtMs: rapid.IntRange(0, 3).Draw(rt, "wat") * rapid.SampledFrom([]int{0, 1, 40, 400}).Draw(rt, "wgap"), Side: st.Side, Kind: "write", SID: st.SID, Size: size, PPI: rapid.SampledFrom([]int{53, 53, 53, 51, 50, 56, 57, 0, 1234567}).Draw(rt, "wppi")})
 	}
 	sort.SliceStable(x.Sc.Acts, func(i, j int) bool { return x.Sc.Acts[i].AtMs < x.Sc.Acts[j].AtMs })
 	// some streams are closed by the writer right after (0 / 1 / 40 ms) their last write, i.e.
